@@ -283,7 +283,7 @@ static rc::Gen<BigArr> genBigArr()
     return std::array<ull, 4>{std::get<0>(t), std::get<1>(t), std::get<2>(t), std::get<3>(t)};
   });
   // band: 0 -> (2^31, 2^32] cells, 1..3 -> (2^32, 2^33] cells
-  return rc::gen::map(rc::gen::tuple(pbt::range<int>(0, 1), pbt::range<int>(0, 3), pbt::range<int>(0, 1000), pbt::range<int>(0, 1000), pbt::range<int>(0, 5), u64, u64, u64, pbt::vec(probe, 6)),
+  return rc::gen::map(rc::gen::tuple(pbt::range<int>(0, 1), pbt::range<int>(0, 3), pbt::range<int>(0, 1000), pbt::range<int>(0, 1000), pbt::range<int>(0, 5), u64, u64, u64, pbt::vec(probe, 10)),
       [](const std::tuple<int, int, int, int, int, ull, ull, ull, std::vector<std::array<ull, 4>>> &t) {
         const ull hi = std::get<1>(t) == 0 ? 1ull << 32 : 1ull << 33, lo = hi / 2;
         const int B = std::get<1>(t) == 0 ? 33 : 34;
@@ -323,6 +323,6 @@ static rc::Gen<BigArr> genBigArr()
 
 static void register_properties()
 {
-  pbt::property<BigArr>("actual_big_mmap", 400, genBigArr(), actual_big_mmap);
+  pbt::property<BigArr>("actual_big_mmap", 3000, genBigArr(), actual_big_mmap);
 }
 PBT_MAIN("C17_bigmem")
